@@ -171,7 +171,7 @@ def ensure_facts(repo=REPO, variant='default', extra=(), quiet=False):
             if p not in keep:
                 os.unlink(p)
         views = sorted(glob.glob(os.path.join(CACHE, 'facts', variant + '-*')), key=os.path.getmtime)
-        for v in views[:-3]:
+        for v in views[:-6]:
             shutil.rmtree(v, ignore_errors=True)
         info['scanned'] = True
         info['scan_s'] = round(time.time() - t0, 1)
